@@ -23,7 +23,7 @@ pub fn atoms_full() -> Vec<Value> {
     v.push(Value::Int64Value(i64::MAX));
     v.push(Value::UInt32Value(u32::MAX));
     v.push(Value::UInt64Value(u64::MAX));
-    let two64 = BigInt::from(u64::MAX) + 1;
+    let two64: BigInt = BigInt::from(u64::MAX) + 1u32;
     v.push(Value::BigInt(two64.clone()));
     v.push(Value::BigInt(-two64));
     for x in [0.0f64, -0.0, 1.5, 1e300, f64::MIN_POSITIVE] {
